@@ -22,10 +22,11 @@
 (* code-point sequences (V: "length of a string is the number of its       *)
 (* characters as defined by RFC 8259").                                    *)
 (*                                                                         *)
-(* Not modelled (never generated, see notes/C11.md): format, pattern and   *)
-(* patternProperties (regular expressions), content*, numbers with more    *)
-(* than two fraction digits or an exponent, $id that changes the base URI, *)
-(* non-local references, $recursiveRef / $dynamicRef, $vocabulary.         *)
+(* Not modelled (never generated, see notes/C11.md): format, pattern,      *)
+(* patternProperties with patterns outside the literal vocabulary of       *)
+(* section "Patterns" below, content*, numbers with more than two fraction *)
+(* digits or an exponent, $id that changes the base URI, non-local         *)
+(* references, $recursiveRef / $dynamicRef, $vocabulary.                   *)
 (***************************************************************************)
 EXTENDS JsonPointer, Integers, TLC
 
@@ -51,6 +52,7 @@ StrTab ==
   "minProperties" :> <<109,105,110,80,114,111,112,101,114,116,105,101,115>> @@
   "required" :> <<114,101,113,117,105,114,101,100>> @@
   "properties" :> <<112,114,111,112,101,114,116,105,101,115>> @@
+  "patternProperties" :> <<112,97,116,116,101,114,110,80,114,111,112,101,114,116,105,101,115>> @@
   "additionalProperties" :> <<97,100,100,105,116,105,111,110,97,108,80,114,111,112,101,114,116,105,101,115>> @@
   "items" :> <<105,116,101,109,115>> @@
   "additionalItems" :> <<97,100,100,105,116,105,111,110,97,108,73,116,101,109,115>> @@
@@ -168,6 +170,35 @@ Dyadic(x) == (Hun(x) % 25) = 0
 MultipleOfExact(a, b) == Hun(a) = 0 \/ (Dyadic(a) /\ Dyadic(b))
 
 -----------------------------------------------------------------------------
+(* Patterns.  "patternProperties" (V d4 5.4.4, d6 6.19, d7 6.5.5, C 2019-09 *)
+(* 9.3.2.2, 2020-12 10.3.2.2): each member name of the keyword's value       *)
+(* "SHOULD be a valid regular expression, according to the ECMA 262 regular  *)
+(* expression dialect"; a pattern matches a member name when the regular     *)
+(* expression matches ANYWHERE in the name ("regular expressions are not     *)
+(* implicitly anchored", V d4 3.3 / d7 4.3 / C 2019-09 6.4).  No regular-    *)
+(* expression engine is modelled: the vocabulary is restricted to            *)
+(*        [ "^" ] lower-case-letter* [ "$" ]                                 *)
+(* whose ECMA-262 meaning (no flags: "^" / "$" assert the start / the end of *)
+(* the input, a letter matches itself) is stated directly:                   *)
+(*    "^lit$"  the name equals lit          "^lit"  lit is a prefix          *)
+(*    "lit$"   lit is a suffix              "lit"   lit occurs in the name   *)
+(* (so "" , "^", "$" match every name and "^$" the empty name only).         *)
+(* A pattern outside the vocabulary is outside the domain of this module     *)
+(* (PatternsInVocabulary; EvObject answers "loop" = never run).              *)
+PatAnchS(p) == Len(p) >= 1 /\ p[1] = 94                                         \* "^"
+PatAnchE(p) == Len(p) >= (IF PatAnchS(p) THEN 2 ELSE 1) /\ p[Len(p)] = 36        \* "$"
+PatLit(p) == SubSeq(p, (IF PatAnchS(p) THEN 2 ELSE 1), (IF PatAnchE(p) THEN Len(p) - 1 ELSE Len(p)))
+PatInVocabulary(p) == \A j \in 1..Len(PatLit(p)) : PatLit(p)[j] \in 97..122
+PatMatches(p, name) ==
+  LET lit == PatLit(p)
+      n == Len(lit)
+      m == Len(name)
+  IN IF PatAnchS(p) /\ PatAnchE(p) THEN name = lit
+     ELSE IF PatAnchS(p) THEN n <= m /\ SubSeq(name, 1, n) = lit
+     ELSE IF PatAnchE(p) THEN n <= m /\ SubSeq(name, m - n + 1, m) = lit
+     ELSE \E j \in 0..(m - n) : SubSeq(name, j + 1, j + n) = lit
+
+-----------------------------------------------------------------------------
 (* Results: status + the annotation sets needed by unevaluated*.           *)
 (*   st = "ok" | "bad" | "loop"  ("loop": the evaluation re-enters the     *)
 (*   same schema on the same instance through references.  C d6/d7 8.3.1 / *)
@@ -219,7 +250,7 @@ IsSchemaVal(d, x) == x[1] = "obj" \/ (x[1] = "bool" /\ Rank(d) >= 6)
 OneSchemaKw == <<"additionalProperties", "additionalItems", "items", "contains", "propertyNames", "not", "if", "then",
                  "else", "unevaluatedProperties", "unevaluatedItems">>
 SeqSchemaKw == <<"allOf", "anyOf", "oneOf", "items", "prefixItems">>
-MapSchemaKw == <<"properties", "$defs", "definitions", "dependentSchemas", "dependencies">>
+MapSchemaKw == <<"properties", "patternProperties", "$defs", "definitions", "dependentSchemas", "dependencies">>
 \* "definitions" is a keyword up to Draft 7 only.  From 2019-09 on it is "no longer an official keyword" (meta-schema
 \* $comment); a reference into it points at a possible non-schema, which C 2020-12 9.4.2 leaves undefined.
 IsContainerKw(d, k) == IF k = "definitions" THEN Rank(d) <= 7 ELSE Active(d, k)
@@ -346,9 +377,21 @@ EvObject(d, root, s, v, seen) ==
                 THEN LET rs == { kid(at("properties")[2][k], v[2][k]) : k \in keys \cap pnames } IN
                      IF ConjKids(rs).st = "ok" THEN {OkWith(keys \cap pnames, {})} ELSE {ConjKids(rs)}
                 ELSE {}
-      \* additionalProperties (d7 6.5.6 / C 2019-09 9.3.2.3): applies to the members not named in the sibling
-      \* "properties" (patternProperties is never generated); annotation: those names
-      addl == keys \ pnames
+      \* patternProperties (V d4 5.4.4 / d7 6.5.5 / C 2019-09 9.3.2.2 / 2020-12 10.3.2.2): for every instance member and
+      \* every pattern that matches its name, the member VALUE validates against that pattern's schema (a child
+      \* application: what the subschema evaluates inside the value says nothing about this object);
+      \* annotation: the member names matched by any pattern
+      pats == IF has("patternProperties") THEN DOMAIN at("patternProperties")[2] ELSE {}
+      patsOk == \A p \in pats : PatInVocabulary(p)
+      pmatch == { k \in keys : \E p \in pats : PatMatches(p, k) }
+      rPat == IF has("patternProperties") /\ isO
+              THEN IF ~patsOk THEN {LoopR}                                   \* outside the domain (never generated)
+                   ELSE LET rs == { kid(at("patternProperties")[2][q[1]], v[2][q[2]]) : q \in { z \in pats \X keys : PatMatches(z[1], z[2]) } } IN
+                        IF ConjKids(rs).st = "ok" THEN {OkWith(pmatch, {})} ELSE {ConjKids(rs)}
+              ELSE {}
+      \* additionalProperties (d4 5.4.4 / d7 6.5.6 / C 2019-09 9.3.2.3): applies to the members matched neither by a name in
+      \* the sibling "properties" nor by a pattern of the sibling "patternProperties"; annotation: those names
+      addl == keys \ (pnames \cup pmatch)
       rAddl == IF has("additionalProperties") /\ isO
                THEN LET rs == { kid(at("additionalProperties"), v[2][k]) : k \in addl } IN
                     IF ConjKids(rs).st = "ok" THEN {OkWith(addl, {})} ELSE {ConjKids(rs)}
@@ -424,7 +467,7 @@ EvObject(d, root, s, v, seen) ==
              ELSE {}
       \* $ref beside other keywords (2019-09 and later: an ordinary in-place applicator)
       rRef == IF has("$ref") THEN {EvRef(d, root, at("$ref")[2], v, seen)} ELSE {}
-      r1 == Conj({assertions} \cup rProps \cup rAddl \cup rPNames \cup rDeps \cup rDepS \cup rPre \cup rRest \cup rCont
+      r1 == Conj({assertions} \cup rProps \cup rPat \cup rAddl \cup rPNames \cup rDeps \cup rDepS \cup rPre \cup rRest \cup rCont
                  \cup rAll \cup rAny \cup rOne \cup rNot \cup rIf \cup rRef)
       \* unevaluatedItems (C 2019-09 9.3.1.3, 2020-12 11.2): applies to the positions not evaluated by adjacent
       \* items/additionalItems/prefixItems(/contains in 2020-12) or by in-place applicators; evaluates the rest
@@ -459,6 +502,13 @@ RefTargets(d, root) ==
 IgnoredInside(d, x) ==     \* subschemas below the ignored siblings of a "$ref" object
   UNION { Subs(d, z) : z \in (Subs(d, JObj([k \in (DOMAIN x[2]) \ {S("definitions"), S("$ref")} |-> x[2][k]]))
                                \ {JObj([k \in (DOMAIN x[2]) \ {S("definitions"), S("$ref")} |-> x[2][k]])}) }
+(* Every pattern of every "patternProperties" in a schema position is inside *)
+(* the literal vocabulary (section "Patterns").                              *)
+PatternsInVocabulary(d, root) ==
+  \A x \in Subs(d, root) :
+    (x[1] = "obj" /\ S("patternProperties") \in DOMAIN x[2]) =>
+       /\ x[2][S("patternProperties")][1] = "obj"
+       /\ \A p \in DOMAIN x[2][S("patternProperties")][2] : PatInVocabulary(p)
 RefsResolve(d, root) ==
   /\ \A x \in Subs(d, root) :
        (x[1] = "obj" /\ S("$ref") \in DOMAIN x[2]) =>
